@@ -65,7 +65,10 @@ def main():
         ],
         'checks': checks,
         'not_applicable': not_applicable,
-        'notes': 'Exit codes of ./check: 0 held, 1 confirmed violation (VIOLATION line), 2 inconclusive/broken. Known findings: known_findings.json.',
+        'notes': ('Exit codes of ./check: 0 held, 1 confirmed violation (VIOLATION line), 2 inconclusive/broken. Known findings: known_findings.json. '
+                  'quick: fixed job list, every path must be explored (otherwise exit 2). thorough: anytime exploration with a 20-minute budget per property '
+                  '(quick jobs first, then larger bounds); when the budget is reached the evidence lists what was not explored (coverage.budget_limited_exploration). '
+                  'Runs on modified trees can redirect the evidence file with VERIF_EVIDENCE_DIR.'),
     }
     json.dump(man, open(os.path.join(VERIF, 'MANIFEST.json'), 'w'), indent=1, ensure_ascii=False)
     print('claimed:', claimed)
